@@ -702,14 +702,29 @@ End Step.
 (* ---------------------------------------------------------------------------------------------------------------------------
    the re-statement IS the model (by conversion)
    --------------------------------------------------------------------------------------------------------------------------- *)
+(* the recursive calls of decJ at the smaller fuel: the children ([top' = false]) under the reader's own exclusion spec; the
+   default literals ([top' = true] is used for nothing else: lit_valueS) as NewJsonReader reads them - no spec, scopeToIgnore 0 *)
+Definition djmix (e : env) (wildcard : bytes) (excl : pathspec) (ignore : nat) (parseF : nat -> bytes -> option N) (f : nat)
+    : bool -> ty -> jdoc -> tracker -> res (value * tracker) :=
+  fun top' t d tr =>
+    if top' then decJ e wildcard ps_empty 0 parseF f true t d tr else decJ e wildcard excl ignore parseF f false t d tr.
+
+Lemma djmix_false e wildcard excl ignore parseF f t d tr :
+  djmix e wildcard excl ignore parseF f false t d tr = decJ e wildcard excl ignore parseF f false t d tr.
+Proof. reflexivity. Qed.
+
+Lemma djmix_true e wildcard excl ignore parseF f t d tr :
+  djmix e wildcard excl ignore parseF f true t d tr = decJ e wildcard ps_empty 0 parseF f true t d tr.
+Proof. reflexivity. Qed.
+
 Lemma decJ_unfold : forall e wildcard excl ignore parseF f top t d tr,
   decJ e wildcard excl ignore parseF (S f) top t d tr
-  = stepJ e wildcard excl ignore parseF (decJ e wildcard excl ignore parseF f) top t d tr.
+  = stepJ e wildcard excl ignore parseF (djmix e wildcard excl ignore parseF f) top t d tr.
 Proof. intros. reflexivity. Qed.
 
 Lemma decR_unfold : forall e wildcard excl ignore parseF unesc empty_marker list_prefix query_reader f t s,
   decR e wildcard excl ignore parseF unesc empty_marker list_prefix query_reader (S f) t s
-  = stepR e wildcard excl ignore parseF (decJ e wildcard excl ignore parseF f) unesc empty_marker list_prefix query_reader
+  = stepR e wildcard excl ignore parseF (djmix e wildcard excl ignore parseF f) unesc empty_marker list_prefix query_reader
       (decR e wildcard excl ignore parseF unesc empty_marker list_prefix query_reader f) f t s.
 Proof. intros. reflexivity. Qed.
 
@@ -719,10 +734,10 @@ Proof. intros. reflexivity. Qed.
 Theorem decJ_never_panics : forall e wildcard excl ignore parseF fuel top t d tr,
   decJ e wildcard excl ignore parseF fuel top t d tr <> Panic.
 Proof.
-  intros e wildcard excl ignore parseF fuel.
-  induction fuel as [|f IH]; intros top t d tr.
+  intros e wildcard excl ignore parseF fuel. revert excl ignore.
+  induction fuel as [|f IH]; intros excl ignore top t d tr.
   - cbn [decJ]. discriminate.
-  - rewrite decJ_unfold. apply stepJ_np. exact IH.
+  - rewrite decJ_unfold. apply stepJ_np. intros [|] t0 d0 tr0; unfold djmix; apply IH.
 Qed.
 
 Theorem decR_never_panics : forall e wildcard excl ignore parseF unesc empty_marker list_prefix query_reader fuel t s,
